@@ -1,8 +1,740 @@
-//! C13 — not built yet.
-use crate::util::*;
+//! C13 — SNA save then load restores the machine; saving is side-effect free.
+//! Real code: `Emulator::save_snapshot` into an in-memory recorder (compared byte-exact with the
+//! model's `snaSave` and with the layout the spec prescribes), `Emulator::load_snapshot` into fresh
+//! and dirty emulators (halted, mid prefix chain, paging locked, other border, other RAM), state
+//! read back through the hooks (registers, `verif_paging`, every RAM byte through `peek`).
+#[path = "snap.rs"]
+pub mod snap;
 
-pub fn run(_o: &Opts) -> Report {
+use crate::host::*;
+use crate::util::*;
+use snap::*;
+use std::collections::BTreeMap;
+
+#[derive(Clone, Debug)]
+pub struct Case {
+    pub src: MState,
+    pub recv: MState,
+}
+
+impl Case {
+    pub fn text(&self) -> String {
+        format!("src {} || recv {}", self.src.line(), self.recv.line())
+    }
+    pub fn parse(s: &str) -> Option<Case> {
+        let (a, b) = s.split_once("||")?;
+        Some(Case {
+            src: MState::parse(a.trim().strip_prefix("src")?),
+            recv: MState::parse(b.trim().strip_prefix("recv")?),
+        })
+    }
+}
+
+#[derive(Clone, Debug)]
+pub struct Finding {
+    pub phase: &'static str,
+    pub group: String,
+    pub kind: Kind,
+    pub got: String,
+    pub want: String,
+}
+
+const REG_KEYS: [&str; 16] = [
+    "af", "bc", "de", "hl", "afx", "bcx", "dex", "hlx", "ix", "iy", "sp", "pc", "i", "r", "iff", "im",
+];
+pub const STATE_KEYS: [&str; 23] = [
+    "af", "bc", "de", "hl", "afx", "bcx", "dex", "hlx", "ix", "iy", "sp", "pc", "i", "r", "iff", "im",
+    "halt", "skip", "mid", "lat", "lk", "bd", "pages",
+];
+pub const MODEL_ONLY_KEYS: [&str; 2] = ["sb", "pfx"];
+
+pub fn group_of(key: &str) -> String {
+    if key.starts_with("page") {
+        "ram".into()
+    } else if key == "lat" || key == "lk" || key == "sb" {
+        "paging".into()
+    } else {
+        key.into()
+    }
+}
+
+/// impl vs spec (SpecViolated), then impl vs model (ModelMismatch), per group
+pub fn compare_state(
+    phase: &'static str,
+    got: &BTreeMap<String, String>,
+    model: Option<&BTreeMap<String, String>>,
+    spec: Option<&BTreeMap<String, String>>,
+    keys: &[&str],
+    out: &mut Vec<Finding>,
+) {
+    let mut seen: Vec<String> = vec![];
+    if let Some(spec) = spec {
+        for (k, g, w) in diff_obs(got, spec, keys) {
+            let grp = group_of(&k);
+            if !seen.contains(&grp) {
+                seen.push(grp.clone());
+                out.push(Finding { phase, group: grp, kind: Kind::SpecViolated, got: format!("{}={}", k, g), want: format!("{}={}", k, w) });
+            }
+        }
+    }
+    if let Some(model) = model {
+        let mut ks: Vec<&str> = keys.to_vec();
+        ks.extend_from_slice(&MODEL_ONLY_KEYS);
+        for (k, g, w) in diff_obs(got, model, &ks) {
+            let grp = group_of(&k);
+            if !seen.contains(&grp) {
+                seen.push(grp.clone());
+                out.push(Finding { phase, group: grp, kind: Kind::ModelMismatch, got: format!("{}={}", k, g), want: format!("{}={}", k, w) });
+            }
+        }
+    }
+}
+
+const HDR_NAMES: [&str; 27] = [
+    "i", "hlx", "hlx", "dex", "dex", "bcx", "bcx", "afx", "afx", "hl", "hl", "de", "de", "bc", "bc", "iy", "iy",
+    "ix", "ix", "iff2", "r", "af", "af", "sp", "sp", "im", "border",
+];
+
+fn file_field(off: usize, len: usize) -> String {
+    if off < 27 {
+        HDR_NAMES[off].to_string()
+    } else if len > 49179 && (49179..49183).contains(&off) {
+        ["pc", "pc", "latch", "trdos"][off - 49179].to_string()
+    } else {
+        "banks".to_string()
+    }
+}
+
+/// first offset at which the real file differs from the driver's current file
+fn first_diff(model: &mut Model, bytes: &[u8], other_len: usize) -> usize {
+    let n = bytes.len().min(other_len);
+    let (mut lo, mut hi) = (0usize, n); // invariant: prefix [0,lo) equal
+    let eq = |model: &mut Model, a: usize, b: usize| -> bool {
+        model.ask(&format!("fhash {:x} {:x}", a, b - a)) == format!("{:016x}", fnv(&bytes[a..b]))
+    };
+    if eq(model, 0, n) {
+        return n;
+    }
+    while hi - lo > 1 {
+        let mid = (lo + hi) / 2;
+        if eq(model, lo, mid) {
+            lo = mid;
+        } else {
+            hi = mid;
+        }
+    }
+    lo
+}
+
+fn file_summary(bytes: &[u8]) -> BTreeMap<String, String> {
+    let mut m = BTreeMap::new();
+    m.insert("len".into(), bytes.len().to_string());
+    m.insert("hash".into(), format!("{:016x}", fnv(bytes)));
+    m.insert("hdr".into(), hex(&bytes[..bytes.len().min(27)]));
+    m.insert(
+        "sec".into(),
+        if bytes.len() > 49183 { hex(&bytes[49179..49183]) } else { "-".into() },
+    );
+    m
+}
+
+pub struct Ctx {
+    pub model: Model,
+    pub fx: u32,
+}
+
+fn known_banks(st: &MState) -> Vec<(Vec<u8>, String)> {
+    st.banks.iter().map(|b| (b.bytes(), b.desc())).collect()
+}
+
+fn sna_boundaries(len: usize) -> Vec<usize> {
+    let mut v = vec![];
+    let mut p = 27;
+    while p + PAGE <= len.min(49179) {
+        v.push(p);
+        p += PAGE;
+    }
+    let mut p = 49183;
+    while p + PAGE <= len {
+        v.push(p);
+        p += PAGE;
+    }
+    v
+}
+
+/// Runs one case against the real code and the model; returns every disagreement.
+pub fn check_case(cx: &mut Ctx, case: &Case, mut rep: Option<&mut Report>) -> Vec<Finding> {
+    let mut out = vec![];
+    let m128 = case.src.m128;
+    let model = &mut cx.model;
+    let a = model.ask(&format!("mach 0 {}", case.src.line()));
+    assert_eq!(a, "ok");
+    let mut e = build(&case.src);
+    // 0. the emulator really is in the described state (ties the generator to the model's `mach`)
+    let o0 = observe(&mut e, m128);
+    let m0 = kv_of(&model.ask("obs 0"));
+    compare_state("setup", &o0, Some(&m0), None, &STATE_KEYS, &mut out);
+    if !out.is_empty() {
+        return out;
+    }
+    if let Some(r) = rep.as_deref_mut() {
+        r.eval();
+    }
+    // 1. save: byte-exact
+    let bytes = match save_sna(&mut e) {
+        Ok(b) => b,
+        Err(o) => {
+            out.push(Finding { phase: "save", group: "outcome".into(), kind: Kind::SpecViolated, got: o.text(), want: "ok".into() });
+            return out;
+        }
+    };
+    let ans = model.ask("save 0");
+    let parts: Vec<&str> = ans.split(" | ").collect();
+    let mfile = kv_of(parts[0]);
+    let sfile = kv_of(parts[1].trim_start_matches("spec "));
+    let eff = kv_of(parts[2].trim_start_matches("eff "));
+    let got = file_summary(&bytes);
+    if let Some(r) = rep.as_deref_mut() {
+        r.eval();
+        r.count("saved_file_length", bytes.len().to_string());
+    }
+    let spec_ok = got == sfile;
+    // where the real file first differs from a summary: header and secondary header are compared
+    // locally, only a difference inside the banks needs the driver (bisection over prefix hashes)
+    let locate = |model: &mut Model, other: &BTreeMap<String, String>, which: &str| -> (usize, String) {
+        let olen: usize = other["len"].parse().unwrap_or(0);
+        let ohdr = unhex(&other["hdr"]);
+        for k in 0..27.min(bytes.len()).min(ohdr.len()) {
+            if bytes[k] != ohdr[k] {
+                return (k, format!("{:02x}", ohdr[k]));
+            }
+        }
+        if other["sec"] != "-" && got["sec"] != "-" {
+            let osec = unhex(&other["sec"]);
+            for k in 0..4 {
+                if bytes[49179 + k] != osec[k] {
+                    return (49179 + k, format!("{:02x}", osec[k]));
+                }
+            }
+        }
+        model.ask(which);
+        let off = first_diff(model, &bytes, olen);
+        let want = model.ask(&format!("fslice {:x} 1", off));
+        (off, want)
+    };
+    // every differing header / secondary-header field is reported on its own; a difference inside
+    // the banks is located by bisection
+    let header_diffs = |other: &BTreeMap<String, String>| -> Vec<(usize, String)> {
+        let mut v: Vec<(usize, String)> = vec![];
+        let ohdr = unhex(&other["hdr"]);
+        for k in 0..27.min(bytes.len()).min(ohdr.len()) {
+            if bytes[k] != ohdr[k] {
+                v.push((k, format!("{:02x}", ohdr[k])));
+            }
+        }
+        if other["sec"] != "-" && got["sec"] != "-" {
+            let osec = unhex(&other["sec"]);
+            for k in 0..4 {
+                if bytes[49179 + k] != osec[k] {
+                    v.push((49179 + k, format!("{:02x}", osec[k])));
+                }
+            }
+        }
+        v
+    };
+    let mut report = |out: &mut Vec<Finding>, model: &mut Model, other: &BTreeMap<String, String>, which: &str, phase: &'static str, kind: Kind| {
+        let olen: usize = other["len"].parse().unwrap_or(0);
+        let mut diffs = header_diffs(other);
+        if diffs.is_empty() {
+            let (off, want) = locate(model, other, which);
+            diffs.push((off, want));
+        }
+        let mut seen: Vec<String> = vec![];
+        for (off, want) in diffs {
+            let group = if bytes.len() != olen && off >= bytes.len().min(olen) { "length".to_string() } else { file_field(off, olen) };
+            if seen.contains(&group) {
+                continue;
+            }
+            seen.push(group.clone());
+            out.push(Finding {
+                phase,
+                group,
+                kind,
+                got: format!("len={} byte[{}]={:02x?}", bytes.len(), off, bytes.get(off)),
+                want: format!("len={} byte[{}]={}", olen, off, want),
+            });
+        }
+    };
+    if !spec_ok {
+        report(&mut out, model, &sfile, "specfile 0", "save", Kind::SpecViolated);
+    }
+    if got != mfile {
+        // a field the spec already decided is not reported a second time as a model mismatch
+        let mut tmp = vec![];
+        report(&mut tmp, model, &mfile, "save 0", "save", Kind::ModelMismatch);
+        for f in tmp {
+            if !out.iter().any(|g| g.phase == "save" && g.group == f.group) {
+                out.push(f);
+            }
+        }
+    }
+    // 2. save is pure
+    let o1 = observe(&mut e, m128);
+    compare_state("save-effect", &o1, Some(&eff), Some(&m0), &STATE_KEYS, &mut out);
+    if let Some(r) = rep.as_deref_mut() {
+        r.eval();
+    }
+    // 3. load into the receiver
+    let a = model.ask(&format!("mach 1 {}", case.recv.line()));
+    assert_eq!(a, "ok");
+    let mut rcv = build(&case.recv);
+    let mut known = known_banks(&case.src);
+    // a 48K image carries PC inside a bank: describe that bank with the two overrides
+    if !m128 {
+        let mut pushed = case.src.clone();
+        let sp = case.src.sp();
+        pushed.poke(sp.wrapping_sub(1), (case.src.pc() >> 8) as u8);
+        pushed.poke(sp.wrapping_sub(2), case.src.pc() as u8);
+        known.extend(known_banks(&pushed));
+    }
+    let segs = segments(&bytes, &known, &sna_boundaries(bytes.len()));
+    let mut first = true;
+    for chunk in segs.chunks(4) {
+        let a = model.ask(&format!("{} {}", if first { "file" } else { "fileadd" }, chunk.join(" ")));
+        first = false;
+        let _ = a;
+    }
+    let chk = model.ask(&format!("fhash 0 {:x}", bytes.len()));
+    assert_eq!(chk, format!("{:016x}", fnv(&bytes)), "file transfer to the driver is broken");
+    let ans = model.ask("load 1 2");
+    let (mpart, spart) = ans.split_once(" | spec ").unwrap_or((&ans, "none"));
+    let outcome = load_sna(&mut rcv, &bytes);
+    let spec = if spart == "none" { None } else { Some(kv_of(spart)) };
+    if let Some(r) = rep.as_deref_mut() {
+        r.eval();
+    }
+    let model_outcome = if mpart.starts_with("ok") { "ok".to_string() } else { mpart.to_string() };
+    if spec.is_some() && outcome != Outcome::Ok {
+        out.push(Finding { phase: "load", group: "outcome".into(), kind: Kind::SpecViolated, got: outcome.text(), want: "ok".into() });
+    } else if outcome.text() != model_outcome {
+        out.push(Finding { phase: "load", group: "outcome".into(), kind: Kind::ModelMismatch, got: outcome.text(), want: model_outcome.clone() });
+    }
+    if outcome == Outcome::Ok {
+        let o2 = observe(&mut rcv, case.recv.m128);
+        let mm = if mpart.starts_with("ok ") { Some(kv_of(&mpart[3..])) } else { None };
+        compare_state("load", &o2, mm.as_ref(), spec.as_ref(), &STATE_KEYS, &mut out);
+        // 4. round trip: what the prescribed file of the source state gives in this receiver
+        let rt = model.ask("rt 0 1");
+        if rt != "none" {
+            let want = kv_of(&rt);
+            let mut tmp = vec![];
+            compare_state("roundtrip", &o2, None, Some(&want), &STATE_KEYS, &mut tmp);
+            // on the 48K the statement is conditional on the two bytes below SP being RAM
+            let sp = case.src.sp();
+            let stack_in_ram = m128 || (sp.wrapping_sub(1) >= 0x4000 && sp.wrapping_sub(2) >= 0x4000);
+            // round trip = load after save: a group already reported for one of the halves is not repeated
+            if stack_in_ram {
+                for f in tmp {
+                    if !out.iter().any(|g| g.group == f.group && g.kind == Kind::SpecViolated) {
+                        out.push(f);
+                    }
+                }
+            }
+            if let Some(r) = rep.as_deref_mut() {
+                r.eval();
+                r.class(format!(
+                    "roundtrip {} n={} lock={} recv[halt={} skip={} pfx={} lock={}] stack_ram={}",
+                    if m128 { "128k" } else { "48k" },
+                    case.src.latch & 7,
+                    case.src.locked() as u8,
+                    case.recv.halt as u8,
+                    case.recv.skip as u8,
+                    case.recv.pfx,
+                    case.recv.locked() as u8,
+                    stack_in_ram as u8
+                ));
+            }
+        }
+        // 5. continued execution: source (after saving) and loaded machine run the same steps
+        let sp = case.src.sp();
+        let stack_ok = m128 || (sp.wrapping_sub(1) >= 0x4000 && sp.wrapping_sub(2) >= 0x4000);
+        if out.is_empty() && stack_ok && case.src.iff1 == case.src.iff2 && !case.src.halt && !case.src.skip && case.src.pfx == 0 {
+            if !m128 {
+                // the 48K format keeps PC in the two bytes below SP: the loaded machine has them in RAM
+                let (sp, pc) = (case.src.sp(), case.src.pc());
+                e.verif_write_mem(sp.wrapping_sub(1), (pc >> 8) as u8, 0);
+                e.verif_write_mem(sp.wrapping_sub(2), pc as u8, 0);
+            }
+            e.verif_set_frame_clocks(0);
+            rcv.verif_set_frame_clocks(0);
+            let a = run_steps(&mut e, 4);
+            let b = run_steps(&mut rcv, 4);
+            if let Some(r) = rep.as_deref_mut() {
+                r.eval();
+            }
+            if a != b {
+                out.push(Finding { phase: "continue", group: "execution".into(), kind: Kind::SpecViolated, got: b, want: a });
+            }
+        }
+    }
+    out
+}
+
+/// features of a case that differ from the all-default case (for the stable key)
+fn features(case: &Case) -> String {
+    let mut f = vec![];
+    let d = MState::fresh(case.src.m128);
+    let s = &case.src;
+    for (n, name) in WNAMES.iter().enumerate() {
+        if s.w[n] != 0 {
+            f.push(format!("src.{}", name));
+        }
+    }
+    if s.i != 0 { f.push("src.i".into()); }
+    if s.r != 0 { f.push("src.r".into()); }
+    if s.iff1 { f.push("src.iff1".into()); }
+    if s.iff2 { f.push("src.iff2".into()); }
+    if s.im != 0 { f.push("src.im".into()); }
+    if s.halt { f.push("src.halt".into()); }
+    if s.skip { f.push("src.skip".into()); }
+    if s.pfx != 0 { f.push("src.pfx".into()); }
+    if s.border != 0 { f.push("src.border".into()); }
+    if s.locked() { f.push("src.locked".into()); } else if s.latch != 0 { f.push("src.paging".into()); }
+    if s.banks != d.banks { f.push("src.ram".into()); }
+    let r = &case.recv;
+    if r.w != d.w || r.i != 0 || r.r != 0 || r.iff1 || r.iff2 || r.im != 0 { f.push("recv.regs".into()); }
+    if r.halt { f.push("recv.halt".into()); }
+    if r.skip { f.push("recv.skip".into()); }
+    if r.pfx != 0 { f.push("recv.pfx".into()); }
+    if r.border != 0 { f.push("recv.border".into()); }
+    if r.locked() { f.push("recv.locked".into()); } else if r.latch != 0 { f.push("recv.paging".into()); }
+    if r.banks != d.banks { f.push("recv.ram".into()); }
+    if r.m128 != s.m128 { f.push("recv.other-model".into()); }
+    f.join("+")
+}
+
+fn has(fs: &[Finding], phase: &str, group: &str, kind: Kind) -> bool {
+    fs.iter().any(|f| f.phase == phase && f.group == group && f.kind == kind)
+}
+
+/// Greedy shrinking towards the all-default case, in a fixed order; every candidate is re-run on
+/// the real code and re-adjudicated.
+fn shrink(cx: &mut Ctx, case: &Case, phase: &str, group: &str, kind: Kind) -> Case {
+    let mut cur = case.clone();
+    let mut try_cand = |cx: &mut Ctx, cur: &mut Case, cand: Case| {
+        if cand.src == cur.src && cand.recv == cur.recv {
+            return;
+        }
+        if has(&check_case(cx, &cand, None), phase, group, kind) {
+            *cur = cand;
+        }
+    };
+    // RAM first (cheap candidates afterwards), then the receiver entirely fresh, then aspect by aspect
+    let mut c = cur.clone();
+    c.src.banks = MState::fresh(cur.src.m128).banks;
+    c.recv.banks = MState::fresh(cur.recv.m128).banks;
+    try_cand(cx, &mut cur, c);
+    let mut c = cur.clone();
+    c.recv = MState::fresh(cur.recv.m128);
+    try_cand(cx, &mut cur, c);
+    let fresh = MState::fresh(cur.recv.m128);
+    let steps: Vec<Box<dyn Fn(&mut Case)>> = vec![
+        Box::new(|c| c.src.banks = MState::fresh(c.src.m128).banks),
+        Box::new(|c| c.recv.banks = MState::fresh(c.recv.m128).banks),
+        Box::new(|c| { c.recv.w = [0; 12]; c.recv.i = 0; c.recv.r = 0; c.recv.iff1 = false; c.recv.iff2 = false; c.recv.im = 0; }),
+        Box::new(|c| c.recv.halt = false),
+        Box::new(|c| c.recv.skip = false),
+        Box::new(|c| c.recv.pfx = 0),
+        Box::new(|c| c.recv.border = 0),
+        Box::new(|c| c.recv.latch = 0),
+        Box::new(|c| c.recv.latch &= 0x20),
+        Box::new(|c| for b in c.src.banks.iter_mut() { b.ov.clear(); }),
+        Box::new(|c| c.src.latch = 0),
+        Box::new(|c| c.src.latch &= 0x27),
+        Box::new(|c| c.src.latch &= 0x07),
+        Box::new(|c| c.src.halt = false),
+        Box::new(|c| c.src.skip = false),
+        Box::new(|c| c.src.pfx = 0),
+        Box::new(|c| c.src.border = 0),
+        Box::new(|c| c.src.i = 0),
+        Box::new(|c| c.src.r = 0),
+        Box::new(|c| c.src.iff1 = false),
+        Box::new(|c| c.src.iff2 = false),
+        Box::new(|c| c.src.im = 0),
+    ];
+    let _ = fresh;
+    for s in &steps {
+        let mut c = cur.clone();
+        s(&mut c);
+        try_cand(cx, &mut cur, c);
+    }
+    for n in 0..12 {
+        let mut c = cur.clone();
+        c.src.w[n] = 0;
+        try_cand(cx, &mut cur, c);
+        // SP: a plain RAM address is "more default" than an arbitrary one
+        if n == 10 && cur.src.w[10] != 0 && cur.src.w[10] != 0x8000 {
+            let mut c = cur.clone();
+            c.src.w[10] = 0x8000;
+            try_cand(cx, &mut cur, c);
+        }
+    }
+    cur
+}
+
+fn record(cx: &mut Ctx, rep: &mut Report, case: &Case, f: &Finding) {
+    let small = shrink(cx, case, f.phase, &f.group, f.kind);
+    let fs = check_case(cx, &small, None);
+    let f2 = fs
+        .iter()
+        .find(|g| g.phase == f.phase && g.group == f.group && g.kind == f.kind)
+        .cloned()
+        .unwrap_or_else(|| f.clone());
+    let key = format!(
+        "C13/{}/{}/{}/{}",
+        f2.phase,
+        f2.group,
+        if small.src.m128 { "128k" } else { "48k" },
+        features(&small)
+    );
+    rep.violation(Violation {
+        kind: f2.kind,
+        key,
+        what: format!(
+            "{} {}: real code gives {} but {} says {} (case: {})",
+            f2.phase,
+            f2.group,
+            f2.got,
+            if f2.kind == Kind::SpecViolated { "the spec" } else { "the Lean model" },
+            f2.want,
+            small.text()
+        ),
+        correspondence: "corr.C13.sna (Model.Snapshot.snaSave/snaSaveEffect/snaLoad vs Emulator::save_snapshot/load_snapshot)".into(),
+        case: J::obj(vec![("text", J::s(small.text()))]),
+        implementation: f2.got.clone(),
+        expected: f2.want.clone(),
+    });
+}
+
+// ---------------------------------------------------------------------------------------------
+// generators
+
+pub fn rnd16(r: &mut Rng) -> u16 {
+    match r.below(10) {
+        0 => 0x0000,
+        1 => 0xFFFF,
+        2 => 0x8000,
+        3 => 0x7FFF,
+        _ => r.u16(),
+    }
+}
+
+pub fn random_state(r: &mut Rng, m128: bool, source: bool) -> MState {
+    let mut s = MState::fresh(m128);
+    for n in 0..12 {
+        s.w[n] = rnd16(r);
+    }
+    // HL and HL' distinct most of the time (otherwise a swapped getter hides)
+    // SP: mostly RAM, sometimes the edges of the ROM / the address space
+    s.w[10] = match r.below(12) {
+        0 => 0x4000,
+        1 => 0x4001,
+        2 => 0x4002,
+        3 => 0x0000,
+        4 => 0x0001,
+        5 => 0xFFFF,
+        6 => 0xC000,
+        7 => 0xC001,
+        8 => 0x8001,
+        _ => 0x4002 + r.below(0xBFFC) as u16,
+    };
+    s.i = r.u8();
+    s.r = r.u8();
+    s.iff2 = r.bool();
+    s.iff1 = if r.chance(1, 6) { !s.iff2 } else { s.iff2 };
+    s.im = r.below(3) as u8;
+    s.border = r.below(8) as u8;
+    if m128 {
+        s.latch = r.u8();
+    }
+    // banks: distinct non-zero seeds, now and then two banks with equal contents or an untouched bank
+    let nb = s.banks.len();
+    for k in 0..nb {
+        s.banks[k] = Bank::new(match r.below(12) {
+            0 => 0,
+            1 if k > 0 => s.banks[k - 1].seed,
+            _ => 1 + r.below(0xFFFF_FFFF),
+        });
+    }
+    if source {
+        // a tiny program at PC (if PC is in RAM): INC A / INC B / INC HL / NOP / DEC C ...
+        let ops = [0x3Cu8, 0x04, 0x23, 0x00, 0x0D, 0x13, 0x2C, 0x14];
+        for k in 0..6u16 {
+            let op = *r.pick(&ops);
+            s.poke(s.pc().wrapping_add(k), op);
+        }
+        if r.chance(1, 10) {
+            s.halt = true;
+        }
+        if r.chance(1, 10) {
+            s.skip = true;
+        }
+    } else {
+        s.halt = r.chance(1, 2);
+        s.skip = r.chance(1, 3);
+        s.pfx = if r.chance(1, 2) { *r.pick(&[2u8, 3, 4]) } else { 0 };
+    }
+    s
+}
+
+// ---------------------------------------------------------------------------------------------
+// which candidate repairs does the tree under test contain? (one targeted probe per flag)
+
+pub fn detect_fixes() -> (u32, Vec<String>) {
+    let mut fx = 0u32;
+    let mut notes = vec![];
+    // bit 0 hlAlt
+    {
+        let mut s = MState::fresh(true);
+        s.w[3] = 0x4433;
+        s.w[7] = 0x2211;
+        let mut e = build(&s);
+        if let Ok(b) = save_sna(&mut e) {
+            if b[1] == 0x11 && b[2] == 0x22 {
+                fx |= 1;
+            }
+        }
+    }
+    // bit 1 unlockOnLoad, bit 2 resetCpuOnLoad
+    {
+        let mut s = MState::fresh(true);
+        s.latch = 0x03;
+        let mut e = build(&s);
+        if let Ok(b) = save_sna(&mut e) {
+            let mut r = MState::fresh(true);
+            r.latch = 0x20;
+            r.halt = true;
+            r.skip = true;
+            r.pfx = 2;
+            let mut rc = build(&r);
+            if load_sna(&mut rc, &b) == Outcome::Ok {
+                if rc.verif_paging().0 == 0x03 {
+                    fx |= 2;
+                }
+                let c = rc.verif_cpu();
+                if !c.halted && !c.skip_interrupt && prefix_num(c.verif_active_prefix()) == 0 {
+                    fx |= 4;
+                } else if !c.halted || !c.skip_interrupt || prefix_num(c.verif_active_prefix()) == 0 {
+                    notes.push("receiver CPU execution state is only partly reset on load".into());
+                }
+            }
+        }
+    }
+    // bit 3 pureSave48
+    {
+        let mut s = MState::fresh(false);
+        s.w[10] = 0x8000;
+        s.w[11] = 0x1234;
+        let mut e = build(&s);
+        let _ = save_sna(&mut e);
+        if e.peek(0x7FFF) == 0 && e.peek(0x7FFE) == 0 {
+            fx |= 8;
+        }
+    }
+    // bit 4 rejectMismatch
+    {
+        let mut e = build(&MState::fresh(false));
+        if let Ok(b) = save_sna(&mut e) {
+            let mut rc = build(&MState::fresh(true));
+            if matches!(load_sna(&mut rc, &b), Outcome::Err(_)) {
+                fx |= 16;
+            }
+        }
+    }
+    (fx, notes)
+}
+
+pub fn run(o: &Opts) -> Report {
     let mut rep = Report::new("C13");
-    rep.notes.push("not built yet".into());
+    rep.rule = "random machine states (registers with boundary bias, every 7FFD value incl. lock, SP at the ROM/RAM \
+and address-space edges, RAM banks = seeded 16 KiB patterns with a small program at PC, sometimes two equal or untouched \
+banks) on both machines; each is saved through Emulator::save_snapshot (file compared byte-exact with the model's snaSave \
+and with the SNA layout of the spec; machine state afterwards compared with the state before), the file is loaded into a \
+fresh and into a dirty emulator (random registers/RAM/border, halted, EI-pending, mid DD/ED/FD chain, paging locked) and \
+the result (registers, latch, lock, border, all RAM pages through peek) compared with the model's snaLoad, with what the \
+spec says the file describes and with the source state (round trip); then source and loaded machine execute the same four \
+steps. distinct = (machine, bank at 0xC000, source lock, receiver halt/skip/prefix/lock, stack-in-RAM) classes of completed round trips"
+        .into();
+    let (fx, notes) = detect_fixes();
+    rep.notes.extend(notes);
+    rep.notes.push(format!(
+        "repairs detected in the tree under test (model variant used): hlAlt={} unlockOnLoad={} resetCpuOnLoad={} pureSave48={} rejectMismatch={}",
+        fx & 1, (fx >> 1) & 1, (fx >> 2) & 1, (fx >> 3) & 1, (fx >> 4) & 1
+    ));
+    let mut cx = Ctx { model: Model::spawn(&o.model, "C13"), fx };
+    assert_eq!(cx.model.ask(&format!("fx {:x}", fx)), "ok");
+
+    if let Some(text) = &o.replay {
+        if let Some(case) = Case::parse(text) {
+            rep.sample(J::s(case.text()));
+            let fs = check_case(&mut cx, &case, Some(&mut rep));
+            for f in &fs {
+                record(&mut cx, &mut rep, &case, f);
+            }
+        } else {
+            rep.notes.push("replay case could not be parsed".into());
+        }
+        return rep;
+    }
+
+    let mut rng = Rng::new(o.seed ^ 0xC13);
+    let mut cases: Vec<Case> = vec![];
+    // every bank n at 0xC000, locked and unlocked, into a fresh receiver (the 147487-byte layouts included)
+    for n in 0..8u8 {
+        for lock in [0u8, 0x20] {
+            let mut r = rng.fork();
+            let mut s = random_state(&mut r, true, true);
+            s.latch = (s.latch & 0xD8) | n | lock;
+            cases.push(Case { src: s, recv: MState::fresh(true) });
+        }
+    }
+    let n = o.n(130, 13_000);
+    for k in 0..n {
+        let mut r = rng.fork();
+        let m128 = k % 3 != 0;
+        let src = random_state(&mut r, m128, true);
+        let recv = if r.chance(1, 4) { MState::fresh(m128) } else { random_state(&mut r, m128, false) };
+        cases.push(Case { src, recv });
+    }
+    for (k, case) in cases.iter().enumerate() {
+        rep.count("machine", if case.src.m128 { "128k" } else { "48k" });
+        rep.count("receiver", format!(
+            "halt={} skip={} pfx={} locked={}",
+            case.recv.halt as u8, case.recv.skip as u8, (case.recv.pfx != 0) as u8, case.recv.locked() as u8
+        ));
+        if case.src.m128 {
+            rep.count("bank_at_c000", (case.src.latch & 7).to_string());
+            rep.count("source_locked", (case.src.locked() as u8).to_string());
+        }
+        if k < 2 {
+            rep.sample(J::s(case.text()));
+        }
+        let fs = check_case(&mut cx, case, Some(&mut rep));
+        for f in &fs {
+            rep.count("disagreements", format!("{}/{}/{:?}", f.phase, f.group, f.kind));
+        }
+        // one shrink per distinct (phase, group, kind, machine): everything else is counted as a repeat
+        for f in &fs {
+            let tag = format!("{}/{}/{:?}/{}", f.phase, f.group, f.kind, case.src.m128);
+            if rep.distribution.get("shrunk").map_or(false, |m| m.get(&tag).copied().unwrap_or(0) >= 2) {
+                continue;
+            }
+            rep.count("shrunk", tag);
+            record(&mut cx, &mut rep, case, f);
+        }
+    }
+    rep.extra.push(("cases".into(), J::I(cases.len() as i64)));
+    rep.extra.push(("model_requests".into(), J::I(cx.model.requests as i64)));
+    rep.extra.push(("fixes_detected".into(), J::I(fx as i64)));
     rep
 }
